@@ -24,6 +24,12 @@ func ErrClass(err error) string {
 		s = s[:i]
 	}
 	s = digitsRe.ReplaceAllString(s, "N")
+	s = strings.Map(func(r rune) rune {
+		if r < 0x20 || r > 0x7e {
+			return '?'
+		}
+		return r
+	}, s)
 	if len(s) > 60 {
 		s = s[:60]
 	}
